@@ -388,6 +388,7 @@ def finish(spec, tier, seed, t0, results=None, out=None, inconclusive=None, vali
             "bounds": spec.bounds(tier),
             "solver": dict(solver, name="z3 4.8.12 (-in, incremental push/pop)"),
             "inconclusive": inconclusive[:20],
+            "engine_notes": sorted({"%s: %s" % (r["id"], n) for r in results for n in (r.get("notes") or [])})[:20],
             "known_findings_seen": sorted(known_seen.keys()),
             "rule": spec.rule,
         },
